@@ -124,7 +124,7 @@ Proof. vm_compute. split; reflexivity. Qed.
 
 (* the repair changes nothing whenever the unchanged loop was entered *)
 Theorem C17_dowhile_equals_while_when_entered : forall fuel n nf z z1 pp,
-  PrimFloat.ltb F.EPS (PrimFloat.abs (PrimFloat.sub z z1)) = true ->
+  PrimFloat.ltb F.EPS (F.absdiff z z1) = true ->
   F.newton_while fuel n nf z z1 pp = F.newton_do fuel n nf z.
 Proof. intros fuel n nf z z1 pp H. unfold F.newton_while. rewrite H. reflexivity. Qed.
 
